@@ -284,6 +284,9 @@ func resultNames(con *Contract, sig *types.Signature) []string {
 func (x *Exec) contractEnv(con *Contract, callee *ssa.Function, sig *types.Signature, isInvoke bool, args []*Val, argTypes []types.Type,
 	results []*Val, heap map[string]*Term, pkg *types.Package) *SpecEnv {
 	names := contractParamNames(con, callee, len(args))
+	if con.Kind == "iface" && len(con.Params) > 0 && len(con.Params) == len(args)-1 {
+		names = append([]string{"this"}, con.Params...)
+	}
 	m := map[string]*SV{}
 	for i, a := range args {
 		if i < len(names) {
@@ -337,6 +340,20 @@ func (fr *Frame) applyContract(n *vnode, instr *ssa.Call, con *Contract, callee 
 	if i := strings.LastIndex(cname, "/"); i >= 0 {
 		cname = cname[i+1:]
 	}
+	var refined []*Contract
+	for _, rn := range con.Refines {
+		if ic := x.eng.findIface(callee, rn); ic != nil {
+			refined = append(refined, ic)
+		}
+	}
+	for _, ic := range refined {
+		ipre := x.contractEnv(ic, nil, sig, true, args, argTypes, nil, n.heap, tpkg)
+		for i, r := range ic.Requires {
+			t := ipre.evalBool(r.E)
+			x.vc.Oblige("call-pre", fmt.Sprintf("%scall-pre.%s.i%d#%d", fr.prefix, cname, i, x.callSeq(cname+".i", i)), n.reach, t, x.pos(instr.Pos()), r.Text)
+			x.vc.Assume(Implies(n.reach, t))
+		}
+	}
 	pre := x.contractEnv(con, callee, sig, c.IsInvoke(), args, argTypes, nil, n.heap, tpkg)
 	for i, r := range con.Requires {
 		t := pre.evalBool(r.E)
@@ -353,6 +370,17 @@ func (fr *Frame) applyContract(n *vnode, instr *ssa.Call, con *Contract, callee 
 	}
 	for _, m := range con.Modifies {
 		fr.havocClause(n, m, pre)
+	}
+	for _, ic := range refined {
+		// the refining method's own modifies clause is authoritative for concrete state; ghost state
+		// (cursors) named by the interface contract is havocked as the interface says
+		ipre := x.contractEnv(ic, nil, sig, true, args, argTypes, nil, oldHeap, tpkg)
+		for _, m := range ic.Modifies {
+			if m.E.Kind == "call" {
+				ipre.heap = n.heap
+				fr.havocClause(n, m, ipre)
+			}
+		}
 	}
 	// results
 	var results []*Val
@@ -383,6 +411,13 @@ func (fr *Frame) applyContract(n *vnode, instr *ssa.Call, con *Contract, callee 
 	for _, e := range con.Ensures {
 		t := post.evalBool(e.E)
 		x.vc.Assume(Implies(n.reach, t))
+	}
+	for _, ic := range refined {
+		ipost := x.contractEnv(ic, nil, sig, true, args, argTypes, results, n.heap, tpkg)
+		ipost.old = x.contractEnv(ic, nil, sig, true, args, argTypes, nil, oldHeap, tpkg)
+		for _, e := range ic.Ensures {
+			x.vc.Assume(Implies(n.reach, ipost.evalBool(e.E)))
+		}
 	}
 	return res
 }
